@@ -392,3 +392,120 @@ impl<'h> Analysis<'h> {
         s
     }
 }
+
+// ------------------------------------------------------ application exchanges
+
+/// One UDP datagram delivered over a clean carrier, with the application bytes of the reply.
+pub struct UdpExchange<'a> {
+    pub si: usize,
+    pub payload: &'a [u8],
+    /// Some(bytes) if the node answered with a UDP datagram
+    pub reply: Option<&'a [u8]>,
+    /// the node answered with something that is not UDP
+    pub odd_reply: bool,
+    pub v6: bool,
+    pub dst: IpAddr,
+    pub src: IpAddr,
+    pub sport: u16,
+    pub dport: u16,
+}
+
+pub struct TcpSeg {
+    pub si: usize,
+    /// offset of this segment's payload in the flow's stream
+    pub off: usize,
+    pub len: usize,
+    /// application bytes carried by the reply (empty for a bare ACK), None if there was no TCP reply
+    pub reply_app: Option<Vec<u8>>,
+}
+
+/// The byte stream the responder saw on one flow in one restart epoch: the accepted data
+/// segments in delivery order (the responder does no reassembly).
+pub struct TcpStream {
+    pub flow: FlowKey,
+    pub epoch: u32,
+    pub segs: Vec<TcpSeg>,
+    pub stream: Vec<u8>,
+    pub dirty: bool,
+    pub cookie: Option<u32>,
+    /// some data segment of the flow carried flags beyond PSH|ACK
+    pub odd_flags: bool,
+}
+
+impl TcpStream {
+    /// index of the segment containing stream byte `pos`
+    pub fn seg_of(&self, pos: usize) -> Option<usize> {
+        self.segs.iter().position(|s| pos >= s.off && pos < s.off + s.len)
+    }
+}
+
+impl<'h> Analysis<'h> {
+    pub fn udp_exchanges(&self) -> Vec<UdpExchange<'_>> {
+        let mut v = Vec::new();
+        for (si, s) in self.steps.iter().enumerate() {
+            if !s.carrier.clean() {
+                continue;
+            }
+            if let L4::Udp(u) = &s.req.l4 {
+                let payload = &s.raw[u.pay_off..u.pay_off + u.pay_len];
+                let (reply, odd) = match (&s.reply, &s.reply_raw) {
+                    (Some(r), Some(raw)) => match &r.l4 {
+                        L4::Udp(ru) => (Some(&raw[ru.pay_off..ru.pay_off + ru.pay_len]), false),
+                        _ => (None, true),
+                    },
+                    _ => (None, false),
+                };
+                v.push(UdpExchange {
+                    si,
+                    payload,
+                    reply,
+                    odd_reply: odd,
+                    v6: matches!(s.req.l3, L3::V6(_)),
+                    dst: s.req.ip_dst().unwrap(),
+                    src: s.req.ip_src().unwrap(),
+                    sport: u.sport,
+                    dport: u.dport,
+                });
+            }
+        }
+        v
+    }
+
+    pub fn tcp_streams(&self) -> Vec<TcpStream> {
+        let mut map: BTreeMap<(u32, FlowKey), TcpStream> = BTreeMap::new();
+        for (si, s) in self.steps.iter().enumerate() {
+            let (ti, th) = match (&s.tcp, s.req.tcp()) {
+                (Some(ti), Some(th)) => (ti, th),
+                _ => continue,
+            };
+            if !matches!(ti.data, Some(DataVerdict::Validates) | Some(DataVerdict::Established)) {
+                continue;
+            }
+            let e = map.entry((s.epoch, ti.flow.clone())).or_insert_with(|| TcpStream {
+                flow: ti.flow.clone(),
+                epoch: s.epoch,
+                segs: Vec::new(),
+                stream: Vec::new(),
+                dirty: self.dirty_flows.contains(&ti.flow),
+                cookie: ti.cookie,
+                odd_flags: false,
+            });
+            if th.flags & 0x1ff != (F_PSH | F_ACK) {
+                e.odd_flags = true;
+            }
+            let reply_app = match (&s.reply, &s.reply_raw) {
+                (Some(r), Some(raw)) => r.tcp().map(|rt| raw[rt.pay_off..rt.pay_off + rt.pay_len].to_vec()),
+                _ => None,
+            };
+            let off = e.stream.len();
+            e.stream.extend_from_slice(&s.raw[th.pay_off..th.pay_off + th.pay_len]);
+            e.segs.push(TcpSeg {
+                si,
+                off,
+                len: th.pay_len,
+                reply_app,
+            });
+        }
+        map.into_values().collect()
+    }
+}
